@@ -75,8 +75,8 @@ fn alpha(name: &str) -> Vec<MOp> {
 
 fn spaces(tier: Tier) -> Vec<(&'static str, u32)> {
     match tier {
-        Tier::Quick => vec![("MICRO", 2), ("SHARE", 2), ("CORE", 2), ("MICRO", 3), ("BIND", 2), ("SHARE", 3), ("SAME", 2), ("SAME", 3), ("SELFX", 2), ("SELFX", 3), ("T3", 2), ("Q", 2)],
-        Tier::Thorough => vec![("MICRO", 2), ("SHARE", 2), ("CORE", 2), ("BIND", 2), ("SELF", 2), ("MICRO", 3), ("SHARE", 3), ("SAME", 2), ("SAME", 3), ("SELFX", 2), ("SELFX", 3), ("T3", 2), ("Q", 2), ("A0", 2), ("CORE", 3), ("MICRO", 4), ("A1", 2)],
+        Tier::Quick => vec![("MICRO", 2), ("SHARE", 2), ("CORE", 2), ("MICRO", 3), ("BIND", 2), ("SHARE", 3), ("SAME", 2), ("SAME", 3), ("SELFX", 2), ("SELFX", 3), ("T3", 2), ("Q", 2), ("CROSS", 4)],
+        Tier::Thorough => vec![("MICRO", 2), ("SHARE", 2), ("CORE", 2), ("BIND", 2), ("SELF", 2), ("MICRO", 3), ("SHARE", 3), ("SAME", 2), ("SAME", 3), ("SELFX", 2), ("SELFX", 3), ("T3", 2), ("Q", 2), ("CROSS", 4), ("A0", 2), ("CORE", 3), ("MICRO", 4), ("A1", 2)],
     }
 }
 
